@@ -53,8 +53,12 @@ func NewFilteredAdapter(filePath string) *FilteredAdapter {
 
 // LoadPolicy loads all policy rules from the storage.
 func (a *FilteredAdapter) LoadPolicy(model model.Model) error {
-	a.filtered = false
-	return a.Adapter.LoadPolicy(model)
+	err := a.Adapter.LoadPolicy(model)
+	if err == nil {
+		// only a completed full load makes the in-memory view complete
+		a.filtered = false
+	}
+	return err
 }
 
 // LoadFilteredPolicy loads only policy rules that match the filter.
